@@ -175,7 +175,7 @@ def check_rank_association(db, chk, rule: str) -> None:
     pool_calls = [c for c in ast.walk(f) if isinstance(c, ast.Call) and isinstance(c.func, ast.Attribute) and isinstance(c.func.value, ast.Name) and c.func.value.id in pool_vars
                   and c.func.attr not in ("close", "join", "terminate")]
     prims = sorted({c.func.attr for c in pool_calls})
-    chk.ob(rule, "worker results are collected with an order-preserving primitive only", prims == ["map"], where, found=prims, accepted=["map"],
+    _ob_absent(chk, rule, "worker results are collected with an order-preserving primitive only", prims == ["map"], where, found=prims, accepted=["map"],
            why="imap_unordered / apply_async deliver in completion order: zip(ranks, results) would store one rank's frame, metadata and local table under another rank")
     check_loader_semantics(db, chk, rule, None)
 
@@ -298,6 +298,10 @@ def _add_symbols_effects(f):
         bad.append(" ".join(ast.unparse(s_).split())[:70])
     det["effects"] = {"appends": appended, "index stores": stored, "other": bad}
     return (appended == 1 and stored == 1 and not bad), det
+
+
+def _ob_absent(chk, *a, **k):
+    return chk.ob(*a, absent_is_unknown=True, **k)
 
 
 def run(db, chk) -> None:
